@@ -83,7 +83,8 @@ SearchIsBinarySearch(keys) ==
        /\ r = BinSearch(keys, p)
 
 \* ------------------------------------------------------------------ descriptors of large pages
-PrefixOf(p) == <<112, 0, p \div 256, p % 256>>
+\* (prefix numbers from 6 on start with a byte >= 0x80: a signed comparison of the prefix hints would misplace them)
+PrefixOf(p) == <<IF p >= 6 THEN 240 ELSE 112, 0, p \div 256, p % 256>>
 RunKey(p, j) == PrefixOf(p) \o <<j \div 256, j % 256>>
 RECURSIVE SumLen(_, _)
 SumLen(runs, r) == IF r = 0 THEN 0 ELSE runs[r][2] + SumLen(runs, r - 1)
